@@ -94,4 +94,14 @@ Theorem C08_murphy_identity_per_bin : forall (p obar : R) o, o <> [] ->
   rsum (map (fun x => (p - x) * (p - x)) o) =
   nR o * ((p - rmean o) * (p - rmean o)) - nR o * ((rmean o - obar) * (rmean o - obar)) + rsum (map (fun x => (obar - x) * (obar - x)) o).
 Proof. exact murphy_bin_identity. Qed.
+(* the whole score: for ANY grouping of the cases into groups sharing one forecast value (the ten probability bins when the
+   forecasts take one value per bin) the summed squared errors are REL - RES + UNC, UNC being independent of the grouping *)
+Theorem C08_murphy_decomposition_over_any_grouping : forall (obar : R) (groups : list (R * list R)),
+  (forall g, In g groups -> snd g <> []) ->
+  rsum (map g_bs groups) = rsum (map g_rel groups) - rsum (map (g_res obar) groups) + rsum (map (g_unc obar) groups).
+Proof. exact murphy_decomposition. Qed.
+Theorem C08_uncertainty_independent_of_grouping : forall (obar : R) (groups : list (R * list R)),
+  rsum (map (g_unc obar) groups) = rsum (map (fun x => (obar - x) * (obar - x)) (concat (map snd groups))).
+Proof. exact g_unc_concat. Qed.
 Print Assumptions C08_murphy_identity_per_bin.
+Print Assumptions C08_murphy_decomposition_over_any_grouping.
